@@ -77,7 +77,9 @@ def check_digests(ctx, pmt, rng):
     for _ in range(int(ctx.params.get("extra_files", 2))):
         sizes.append(rng.choice([rng.randrange(2, 4096), rng.randrange(MIB - 64, MIB + 64), rng.randrange(MIB, 5 * MIB)]))
     if ctx.shard % 2 == 1:
-        sizes = [s for s in sizes if s not in (0, 1)] + [4 * MIB, 4 * MIB - 1]
+        sizes = [s for s in sizes if s not in (0, 1)] + [4 * MIB, 4 * MIB + 1, 8 * MIB + 5]
+        if ctx.tier == "thorough":
+            sizes += [16 * MIB + 1, 33 * MIB + 7]
     algs = []
     skipped = []
     for name in sorted(hashlib.algorithms_available):
